@@ -58,12 +58,24 @@ func driveFunctional(plan []M, out *Out, _ []string) {
 		// working copies with spare capacity, so that an append-in-place would be visible
 		s := append(make([]int, 0, len(s0)+3), s0...)
 		aux := append(make([]int, 0, len(aux0)+3), aux0...)
+		if boolean(c, "nils") { // nil (not merely empty) inputs
+			if len(s0) == 0 {
+				s = nil
+			}
+			if len(aux0) == 0 {
+				aux = nil
+			}
+		}
+		if ty := str(c, "ty"); ty == "byte" || ty == "string" {
+			driveFunctionalTyped(c, ty, out)
+			continue
+		}
 		e := M{"op": op, "fam": fam, "a": a, "b": b, "s": s0, "aux": aux0}
 		rs, ri, rb := []int{}, 0, false
 		rg := []any{}
 		var m map[int]int
 		isMap := len(op) > 1 && op[0] == 'M' && op != "Map" && op != "MapErr"
-		if isMap {
+		if isMap && !(boolean(c, "nils") && len(aux0) == 0) { // nils: a nil map
 			m = map[int]int{}
 			for i := 0; i+1 < len(aux0); i += 2 {
 				m[aux0[i]] = aux0[i+1]
@@ -202,8 +214,17 @@ func driveFunctional(plan []M, out *Out, _ []string) {
 		if cap(resSlice) > len(resSlice) {
 			_ = append(resSlice, 98)
 		}
-		for k := range resMap {
-			resMap[k] = 99
+		if op == "MClone" {
+			// the returned map "can be modified": overwrite, insert and delete (a panic here is recorded like any other)
+			if p2 := protect(func() {
+				for k := range resMap {
+					resMap[k] = 99
+				}
+				resMap[424242] = 1
+				delete(resMap, 424242)
+			}); p2 != "" && e["panic"] == "" {
+				e["panic"] = "writing to the returned map: " + p2
+			}
 		}
 		e["after2"] = snap()
 		if resSlice != nil || resMap != nil {
@@ -235,4 +256,73 @@ func driveFunctional(plan []M, out *Out, _ []string) {
 		}
 		out.Emit(e)
 	}
+}
+
+// The comparable helpers once more on other element types: the ids of the plan are mapped to bytes around 0x80 and above
+// (0x7e+id, so id 2 is 0x80; id 0 is 0x7e) or to strings ("", "a", "b", ...), the results mapped back to ids.
+func driveFunctionalTyped(c M, ty string, out *Out) {
+	op := str(c, "op")
+	s0, aux0, a := ints(c, "s"), ints(c, "aux"), num(c, "a")
+	e := M{"op": op, "fam": str(c, "fam"), "a": a, "b": num(c, "b"), "s": s0, "aux": aux0, "ty": ty}
+	rs, ri, rb := []int{}, 0, false
+	if ty == "byte" {
+		to := func(i int) byte { return byte(0x7e + i) }
+		from := func(b byte) int { return int(b) - 0x7e }
+		rs, ri, rb, e["panic"] = typedOps(op, s0, aux0, a, to, from)
+	} else {
+		to := func(i int) string {
+			if i == 0 {
+				return ""
+			}
+			return string(rune('a' + i - 1))
+		}
+		from := func(x string) int {
+			if x == "" {
+				return 0
+			}
+			return int(x[0]-'a') + 1
+		}
+		rs, ri, rb, e["panic"] = typedOps(op, s0, aux0, a, to, from)
+	}
+	e["rs"], e["ri"], e["rb"], e["rg"] = rs, ri, rb, []any{}
+	e["after"], e["auxafter"], e["after2"], e["rs2"] = s0, aux0, s0, rs
+	out.Emit(e)
+}
+
+func typedOps[T comparable](op string, s0, aux0 []int, a int, to func(int) T, from func(T) int) (rs []int, ri int, rb bool, pan string) {
+	rs = []int{}
+	conv := func(xs []int) []T {
+		out := make([]T, len(xs), len(xs)+2)
+		for i, x := range xs {
+			out[i] = to(x)
+		}
+		return out
+	}
+	back := func(xs []T) []int {
+		out := []int{}
+		for _, x := range xs {
+			out = append(out, from(x))
+		}
+		return out
+	}
+	s, aux := conv(s0), conv(aux0)
+	pan = protect(func() {
+		switch op {
+		case "Trim":
+			rs = back(slices.Trim(s, aux))
+		case "TrimLeft":
+			rs = back(slices.TrimLeft(s, aux))
+		case "TrimRight":
+			rs = back(slices.TrimRight(s, aux))
+		case "Index":
+			ri = slices.Index(s, to(a))
+		case "Contains":
+			rb = slices.Contains(s, to(a))
+		case "Distinct":
+			rs = back(slices.Distinct(s))
+		case "Except":
+			rs = back(slices.Except(s, aux))
+		}
+	})
+	return
 }
